@@ -791,3 +791,40 @@ Proof.
   - constructor.
   - intros k v. split; [intros [] | intros [[] _]].
 Qed.
+
+(** * Access times *)
+Lemma run_events_accesses : forall tbl ks m,
+  run_events tbl (map EvAccess ks) (Some m) = Some (fold_left (register tbl) ks m).
+Proof. intros tbl ks. induction ks as [| k ks IH]; intros m; [reflexivity |]. cbn [map run_events fold_left]. apply IH. Qed.
+
+Lemma run_events_before : forall tbl ks rest, run_events tbl (map EvAccess ks ++ rest) None = run_events tbl rest None.
+Proof. intros tbl ks rest. induction ks as [| k ks IH]; [reflexivity |]. cbn [map app run_events]. exact IH. Qed.
+
+(** for every sequence of accesses: the registry at the end holds exactly the units accessed at any time between
+    the creation of the provider's registry and the end of rendering — eagerly or lazily, in any interleaving —
+    each once, each with its own table; accesses made before the registry exists leave no trace *)
+Theorem registry_is_accessed_after_provide : forall tbl before after,
+  exists m, run_events tbl (map EvAccess before ++ EvProvide :: map EvAccess after) None = Some m
+  /\ NoDup (map fst m)
+  /\ (forall k v, In (k, v) m <-> In k after /\ v = tbl k).
+Proof.
+  intros tbl before after. rewrite run_events_before. cbn [run_events]. rewrite run_events_accesses.
+  exists (fold_left (register tbl) after []). split; [reflexivity |]. exact (register_used_only tbl after).
+Qed.
+
+Theorem page_registry : forall tbl before eager lazy,
+  exists m, run_events tbl (page_events before eager lazy) None = Some m
+  /\ NoDup (map fst m)
+  /\ (forall k v, In (k, v) m <-> (In k eager \/ In k lazy) /\ v = tbl k).
+Proof.
+  intros tbl before eager lazy. unfold page_events. rewrite <- map_app.
+  destruct (registry_is_accessed_after_provide tbl before (eager ++ lazy)) as (m & E & N & I).
+  exists m. split; [exact E |]. split; [exact N |]. intros k v. rewrite I. rewrite in_app_iff. reflexivity.
+Qed.
+
+(** a registry created after the children were built loses the units that are only accessed eagerly *)
+Example page_events_late_refuted :
+  let k : ukey := ([101; 110], Some [109]) in
+  run_events (fun _ => [[120]]) (page_events_late [] [k] []) None = Some []
+  /\ run_events (fun _ => [[120]]) (page_events [] [k] []) None = Some [(k, [[120]])].
+Proof. vm_compute. split; reflexivity. Qed.
